@@ -112,3 +112,65 @@ def known(kid):
             shutil.rmtree(outdir, ignore_errors=True)
         return state["inner"] == "GenerationError"
     return None
+
+
+def interleaved_different():
+    """'single' naming scheme, two runs with DIFFERENT versions of the same
+    kernel; the second arrives between the creation and the writing of the
+    file by the first (os.write is interposed once).  The second run must be
+    refused (GenerationError): otherwise its PSy layer refers to a module
+    file that holds the other run's kernel."""
+    from psyclone.configuration import Config
+    from psyclone.errors import GenerationError
+    from psyclone.parse.algorithm import parse
+    from psyclone.psyGen import PSyFactory
+    from psyclone.psyir.nodes import Assignment
+    from psyclone.transformations import ACCRoutineTrans
+    alg = "single_invoke_scalar_int_arg.f90"
+
+    def other_run():
+        _, info = parse(os.path.join(_base(), alg), api="gocean")
+        psy = PSyFactory("gocean", distributed_memory=False).create(info)
+        for invoke in psy.invokes.invoke_list:
+            for kern in invoke.schedule.coded_kernels():
+                ACCRoutineTrans().apply(kern)
+                sched = kern.get_kernel_schedule()
+                asg = sched.walk(Assignment)[0]
+                asg.parent.addchild(asg.copy(), asg.position + 1)
+        return str(psy.gen)
+    outdir = tempfile.mkdtemp(prefix="c29_")
+    real_write = os.write
+    state = {"inner": None, "done": False}
+
+    def write(fd, data):
+        if not state["done"]:
+            state["done"] = True
+            try:
+                other_run()
+                state["inner"] = "accepted"
+            except GenerationError:
+                state["inner"] = "GenerationError"
+        return real_write(fd, data)
+    try:
+        Config._instance = None
+        cfg = Config.get()
+        cfg.api = "gocean"
+        cfg.kernel_output_dir = outdir
+        cfg.kernel_naming = "single"
+        os.write = write
+        one_run(alg)
+        files = snapshot(outdir)
+    finally:
+        os.write = real_write
+        Config._instance = None
+        shutil.rmtree(outdir, ignore_errors=True)
+    if state["inner"] == "accepted":
+        return {"confirmed": True,
+                "input": {"alg": alg, "scheme": "single",
+                          "interleaving": "second run (kernel with one "
+                          "statement duplicated) between create and write "
+                          "of the first"},
+                "observed": "the second run was accepted although its "
+                "kernel differs from the one the first run then wrote to "
+                f"the shared file(s) {sorted(files)}"}
+    return {"confirmed": False, "inner": state["inner"]}
